@@ -184,6 +184,7 @@ macro "py_eval" : tactic =>
         | (with_reducible rfl)
         | omega
         | (exfalso; omega)
+        | (simp only [csfAbs] at * <;> omega)
         | (simp_all (config := { decide := true }) <;> omega)))
 
 theorem alignOffset_nat (n : Nat) : HabFuns.alignOffset (n : Int) = .ok ((csfAbs n : Nat) : Int) := by
@@ -260,7 +261,7 @@ theorem ivtCsfN_eq (flags ils n ivtOff self : Nat) (h : flags = 0 ∨ flags = 8 
   rcases h with h | h | h <;> subst h <;> unfold ivtCsfN HabFuns.ivtCsfAddress <;> py_eval_align
 
 theorem secretKeyLocN_eq (ils n start : Nat) : secretKeyLocN ils n start = start + csfAbs (ils + n) + 0x2000 := by
-  unfold secretKeyLocN HabFuns.secretKeyLocation csfAbs
+  unfold secretKeyLocN HabFuns.secretKeyLocation
   py_eval_align
 
 theorem nonceLenN_cases (n : Nat) :
